@@ -197,13 +197,14 @@ fn uw(items: &[Sexp], o: &mut Oracle) -> Option<String> {
 
 // ------------------------------------------------------------------------------------------ C11 reader
 
-enum UStep { Read(TT), Get(bool, usize), Msg }
+enum UStep { Read(TT), Skip(TT), Get(bool, usize), Msg }
 
 fn usteps(xs: &[Sexp]) -> Option<Vec<UStep>> {
     xs.iter().map(|x| {
         let l = x.list()?;
         Some(match l.first()?.atom()? {
             "read" => UStep::Read(TT::of_name(l.get(1)?.atom()?)?),
+            "skip" => UStep::Skip(TT::of_name(l.get(1)?.atom()?)?),
             "get" => UStep::Get(l.get(1)?.atom()? == "1", l.get(2)?.atom()?.parse().ok()?),
             "msg" => UStep::Msg,
             _ => return None,
@@ -238,6 +239,20 @@ fn ur(items: &[Sexp], o: &mut Oracle) -> Option<String> {
                         outs.push(s);
                     }
                     Err(e) => { o.fail("C11", format!("unchecked reader failed where the checked reader succeeds: {}", e)); drop(p); return Some(format!("{} after={}", err_class(&e), outs.len())); }
+                }
+            }
+            UStep::Skip(tt) => {
+                // the skipper's contract is the reader's; its return value is what retention and size bookkeeping rely on
+                let chk = thrift::read_script(Proto::Bin, &remaining, &[ReadStep::Skip(*tt)]);
+                if chk.err.is_some() { drop(p); return Some(format!("refused after={}", outs.len())); }
+                match p.skip_till_depth(tt.to_p(), 64) {      // (`skip` itself requires that a field header was just read: C07's field-context verbs)
+                    Ok(nret) => {
+                        let pos = total - p.buf().len() + p.index();
+                        if pos - pos_before != remaining.len() - chk.rem { o.fail("C11", format!("unchecked skipper consumed {} bytes, checked {}", pos - pos_before, remaining.len() - chk.rem)); }
+                        if nret != pos - pos_before { o.fail("C11", format!("unchecked skipper returned {} for {} bytes consumed", nret, pos - pos_before)); }
+                        outs.push(format!("(skipped {})", nret));
+                    }
+                    Err(e) => { o.fail("C11", format!("unchecked skipper failed where the checked one succeeds: {}", e)); drop(p); return Some(format!("{} after={}", err_class(&e), outs.len())); }
                 }
             }
             UStep::Get(ptr, len) => {
@@ -580,6 +595,13 @@ fn c03(verb: &str, items: &[Sexp], o: &mut Oracle) -> Option<String> {
             let w = match thrift::write_all(proto, BufK::Bm, StrApi::Bytes, &[v.clone()]) { Ok(w) => w, Err(e) => return Some(err_class(&e).into()) };
             let r = ref_encode(proto, &v, &mut Choices::Canon);
             if proto != Proto::Le && r != w.bytes { o.fail("C03", format!("pilota wrote {} ; the reference encoder gives {}", hex(&w.bytes), hex(&r))); }
+            // every writer of the protocol (BytesMut, LinkedBytes with zero-copy off / on) and every string API writes the same bytes
+            for (bk, api) in [(BufK::Lb0, StrApi::Bytes), (BufK::Lb1, StrApi::Bytes), (BufK::Bm, StrApi::Vec), (BufK::Lb0, StrApi::FastStr), (BufK::Lb1, StrApi::Vec)] {
+                match thrift::write_all(proto, bk, api, &[v.clone()]) {
+                    Ok(w2) => if w2.bytes != w.bytes { o.fail("C03", format!("the {} writer wrote {} ; the BytesMut writer {}", bk.name(), hex(&w2.bytes), hex(&w.bytes))); },
+                    Err(e) => o.fail("C03", format!("the {} writer failed: {}", bk.name(), e)),
+                }
+            }
             let rd = thrift::read_script(proto, &w.bytes, &[ReadStep::Read(v.tt())]);
             let want = if proto == Proto::Cmp { v.norm_compact().sexp() } else { v.sexp() };
             if rd.err.is_some() || rd.items.first() != Some(&want) || rd.rem != 0 { o.fail("C03", "pilota does not read back its own bytes".into()); }
@@ -958,6 +980,8 @@ pub fn gen(stream: &str, tier: &str, seed: u64, out: &mut dyn Write) -> bool {
             let _ = writeln!(out, "ur ff (read bool)");
             let _ = writeln!(out, "ur 0b00010000000161000c (read struct) (read i8)");
             let _ = writeln!(out, "ur 0b000100000001 (read struct)");            // truncated: refused
+            let _ = writeln!(out, "ur 0b0001000000016108000200000007000c (skip struct) (read i8)");
+            let _ = writeln!(out, "ur 0c00070b0001000000026869080002000000010000 (skip struct)");   // strings inside a skipped nested struct
             let _ = writeln!(out, "ur 0f0100000003 (read list)");                // void elements: refused
             let _ = writeln!(out, "ur 0102030405060708 (read i16) (get 0 5) (read i8)");
             let _ = writeln!(out, "ur 0102030405060708 (read i16) (get 1 5) (read i8)");
@@ -983,7 +1007,7 @@ pub fn gen(stream: &str, tier: &str, seed: u64, out: &mut dyn Write) -> bool {
                 if r.chance(1, 5) { if let Some(Val::Bool(true)) = vals.first() { b[0] = 2 + r.below(254) as u8; } }
                 let mut line = format!("ur {}", hex(&b));
                 let upto = if r.chance(1, 8) { r.below(k as u64) as usize } else { k };
-                for v in &vals[..upto] { line.push_str(&format!(" (read {})", v.tt().name())); }
+                for v in &vals[..upto] { line.push_str(&format!(" ({} {})", if r.chance(1, 3) { "skip" } else { "read" }, v.tt().name())); }
                 if upto < k && r.chance(1, 2) { line.push_str(&format!(" (get {} {})", r.below(2), r.below(12))); }
                 let _ = writeln!(out, "{}", line);
             }
